@@ -72,7 +72,7 @@ func execE2E(r *evid.Run) func(sc e2eScenario) *evid.Failure {
 					options.WithBlockwise(false, 6, time.Second),
 					options.WithHandlerFunc(udpClient.HandlerFunc(func(rw *responsewriter.ResponseWriter[*udpClient.Conn], rq *pool.Message) {
 						handle(func(c codes.Code) error {
-							return rw.SetResponse(c, message.TextPlain, bytes.NewReader([]byte("x")))
+							return rw.SetResponse(c, message.TextPlain, bytes.NewReader([]byte("x")), message.Option{ID: message.ETag, Value: []byte{0xE2, 0x02}})
 						}, rq)
 					})),
 				}...)
@@ -85,7 +85,7 @@ func execE2E(r *evid.Run) func(sc e2eScenario) *evid.Failure {
 					options.WithBlockwise(false, 6, time.Second), options.WithCloseSocket(),
 					options.WithHandlerFunc(tcpClient.HandlerFunc(func(rw *responsewriter.ResponseWriter[*tcpClient.Conn], rq *pool.Message) {
 						handle(func(c codes.Code) error {
-							return rw.SetResponse(c, message.TextPlain, bytes.NewReader([]byte("x")))
+							return rw.SetResponse(c, message.TextPlain, bytes.NewReader([]byte("x")), message.Option{ID: message.ETag, Value: []byte{0xE2, 0x02}})
 						}, rq)
 					})),
 				}...)
@@ -136,8 +136,8 @@ func execE2E(r *evid.Run) func(sc e2eScenario) *evid.Failure {
 					switch {
 					case o.Code != 0:
 						responses = append(responses, o)
-					case w.Datagram() && o.Type == peer.ACK && o.MID == m.MID:
-						acks = append(acks, o)
+					case w.Datagram() && o.Type == peer.ACK && o.MID == m.MID && len(o.Token) == 0 && len(o.Opts) == 0 && len(o.Payload) == 0:
+						acks = append(acks, o) // a bare acknowledgement
 					default:
 						fail = evid.Failf("e2e/unexpected-message", sc, "%s: unexpected message on the wire %+v", desc, o)
 						return
